@@ -88,9 +88,10 @@ def set_bad_file_permissions(context):
                     sev_level = bandit.MEDIUM
 
                 filename = context.get_call_arg_at_position(0)
-                if filename is None or isinstance(filename, (set, dict)):
-                    # a set or dict display has no stable text (hash order,
-                    # node addresses): do not quote it
+                if not isinstance(filename, (str, bytes, int, float)):
+                    # not a literal, or a display: a set or dict - also one
+                    # nested in a list or tuple - has no stable text (hash
+                    # order, node addresses): do not quote it
                     filename = "NOT PARSED"
                 return bandit.Issue(
                     severity=sev_level,
